@@ -17,13 +17,13 @@ TInit == /\ tid \in 1..Len(Traces) /\ l = 1
 
 WSof(obs) == LET w == SelectSeq(obs, LAMBDA o : o[1] = "wr") IN [i \in 1..Len(w) |-> w[i][4]]
 QCof(obs) == \E i \in 1..Len(obs) : obs[i][1] = "lose"
-OrdOf(obs) == [i \in 1..Len(obs) |-> obs[i][2]]
+OrdOf(obs) == LET old == SelectSeq(obs, LAMBDA o : o[2] <= ncall) IN [i \in 1..Len(old) |-> old[i][2]]   \* calls that existed before the step
 
 Matches == last'.e = E.e /\ last'.obs = E.obs
 
 Step(A) == /\ l <= Len(T.ev) /\ A /\ Matches /\ Inv' /\ l' = l + 1 /\ UNCHANGED tid
 
-TNext == \/ (E.e = "call" /\ E.k \in Kinds /\ E.p \in Peers /\ Step(Call(E.p, E.k, WSof(E.obs))))
+TNext == \/ (E.e = "call" /\ E.k \in Kinds /\ E.p \in Peers /\ Step(Call(E.p, E.k, E.f, WSof(E.obs))))
          \/ (E.e = "deliver" /\ E.p \in Peers /\ Step(Deliver(E.p, E.n, WSof(E.obs), QCof(E.obs))))
          \/ (E.e = "fire" /\ Step(Fire(E.c, WSof(E.obs), QCof(E.obs))))
          \/ (E.e = "close" /\ E.p \in Peers /\ Step(UserClose(E.p)))
